@@ -258,7 +258,7 @@ def w_xff(ctx, wid, seed):
 
 def run(tier, t0):
     W = core.WORKERS
-    n = 2500 if tier == 'quick' else 120000
+    n = 2500 if tier == 'quick' else 40000
     tasks = [(w_tokens, dict(examples=n)) for _ in range(W)]
     tasks += [(w_deep, dict(examples=n // 4)) for _ in range(max(2, W // 4))]
     tasks += [(w_tokens, dict(examples=150 if tier == 'quick' else 4000, real=True)) for _ in range(max(2, W // 4))]
